@@ -55,6 +55,11 @@ def cases(tier, rng):
     for nq in ([255, 256, 16383, 16384, 16385, 65535, 65536] if tier == "quick" else [255, 256, 257, 1023, 1024, 16383, 16384, 16385, 32768, 65535, 65536, 65537, 131072]):
         for pre in (["(start)"], ["(start)", "(cancel)"], ["(start)", "(start)"], ["(start-query)", "(start)"]):
             out.append(("(timer %s)" % " ".join(pre + ["(start-query)"] * nq + ["(read)", "(fire 0)", "(read)", "(start)", "(fire 0)", "(read)"]), "timer"))
+    if tier != "quick":
+        # a predicate of 66 000 clauses (clause counters kept in 16 bits come round): thorough tier only - the model needs about
+        # two minutes for it (its knowledge base is a list)
+        many = [fact("w", i(k), i(k % 1000)) for k in range(66000)]
+        out.append((hist(many, [build(0, [atom("w"), i(65990), var(0, "$Y")]), "(solve 0)", "(solve 0)"]), "never"))
     m = 400 if tier == "quick" else 8000
     g = progs.Gen(rng)
     for _ in range(m):
